@@ -351,6 +351,8 @@ PROPS["C16"] = dict(
         dict(module="MC_SVConc", cfg="MC_SVConc_current_quick.cfg", tiers=("quick",), workers=8, gen=False),
         dict(module="MC_SVConc", cfg="MC_SVConc_buggy.cfg", tiers=("quick", "thorough"), workers=4, gen=False, expect="Safe"),
         dict(module="MC_SVConc", cfg="MC_SVConc_gen_quick.cfg", tiers=("quick",), workers=8),
+        dict(module="MC_SVConc", cfg="MC_SVConc_clone_quick.cfg", tiers=("quick", "thorough"), workers=8, gen=False),
+        dict(module="MC_SVConc", cfg="MC_SVConc_genclone_quick.cfg", tiers=("quick", "thorough"), workers=8),
         dict(module="MC_SVConc", cfg="MC_SVConc_current_thorough.cfg", tiers=("thorough",), workers=14, gen=False, timeout=3400, heap="24g"),
         dict(module="MC_SVConc", cfg="MC_SVConc_gen_thorough.cfg", tiers=("thorough",), workers=14, timeout=3400, heap="24g"),
         # 2 threads x 2 calls and 3 threads x 1 call have 10^5..10^6 interleavings: sampled by TLC's simulator
